@@ -623,7 +623,8 @@ def trace(prog, fn, env, attr_defs=None, both_on_unknown=False):
 
 
 # ---------------------------------------------------------------------------
-def check_bound_guards(prog, res, fn, bounds, rule='K3', attr_defs=None):
+def check_bound_guards(prog, res, fn, bounds, rule='K3', attr_defs=None,
+                       must_run=()):
   """K3 - each hard bound is enforced under its own guard.
 
   bounds: [(name, 'min'|'max')] - parameter names or 'self.x' attributes of
@@ -681,6 +682,36 @@ def check_bound_guards(prog, res, fn, bounds, rule='K3', attr_defs=None):
         continue
       if not any(clips(st, b, role) for st in stmts):
         bad.setdefault(b, dict(zip(atoms, combo)))
+  # must_run: [(atom, states in which it is "given", predicate on the callee
+  # name, description)] - in every state with the atom given, the executed
+  # statements call such a function (an early return / a guard on another
+  # option must not skip the step)
+  for atom, given, pred, what in must_run:
+    if atom not in atoms:
+      raise AnalysisError('%s: no test reads %s any more' % (fn.qualname,
+                                                             atom))
+    skipped = None
+    for combo in itertools.product(*[TYPE_STATES[typ(a)] for a in atoms]):
+      env = {a: Val(typ(a), s_) for a, s_ in zip(atoms, combo)}
+      if env[atom].s not in given:
+        continue
+      stmts = trace(prog, fn, env, attr_defs)
+      ran = False
+      for st in stmts:
+        for c in ast.walk(st):
+          if isinstance(c, ast.Call):
+            r = prog.resolve_call(fn, c)
+            nm = getattr(r, 'name', None) or (
+                prog.ext_name(fn.module, c.func) or '')
+            if pred(nm):
+              ran = True
+      if not ran and skipped is None:
+        skipped = dict(zip(atoms, combo))
+    res.check(skipped is None, rule, '%s|%s->%s' % (fn.qualname, atom, what),
+              fn.loc(),
+              'in every state with %s given, %s runs' % (atom, what),
+              '%s is given but %s does not run in state %s: an early return '
+              'or a guard on another option skips it' % (atom, what, skipped))
   for b, role in bounds:
     key = '%s|%s' % (fn.qualname, b)
     res.check(b not in bad, rule, key, fn.loc(),
